@@ -438,4 +438,51 @@ Section Q.
     f_equal; apply forallb_eq; intros e; now rewrite get_ok.
   Qed.
 
+  (** early exit in any traversal order: the visitor sees a prefix of the full listing *)
+  Lemma trav_stop_prefix o j (t : tree) : trav_stop o j t = firstn j (trav_list o t).
+  Proof.
+    rewrite trav_list_olist. unfold trav_stop. destruct (other_dec o) as [->|Hn].
+    - destruct t; simpl; now rewrite ?firstn_nil.
+    - rewrite traverse_vfold by auto. rewrite vfold_stop. now rewrite app_nil_r, rev_involutive.
+  Qed.
+
+  (** ** what Equal means when values are compared by Leibniz equality and the order is antisymmetric *)
+  Lemma s_get_In x (l : amap) w : s_get cmp x l = Some w -> exists k', In (k', w) l /\ cmp x k' = 0.
+  Proof.
+    induction l as [|[k v] l IH]; cbn [s_get]; [discriminate|].
+    destruct (Z.eqb_spec (cmp x k) 0) as [E|E].
+    - intros [= <-]. exists k. split; [left; reflexivity|exact E].
+    - intros H. destruct (IH H) as [k' [H1 H2]]. exists k'. split; [right; exact H1|exact H2].
+  Qed.
+
+  Lemma s_get_self (l : amap) k v : sorted cmp l -> In (k, v) l -> s_get cmp k l = Some v.
+  Proof.
+    induction l as [|[k0 v0] l IH]; cbn [s_get sorted]; [intros _ []|]. intros [H1 H2] [E|Hin].
+    - inversion E; subst. now rewrite (cmp_refl TO), Z.eqb_refl.
+    - rewrite Forall_forall in H1. specialize (H1 _ Hin). cbn [fst] in H1.
+      destruct (Z.eqb_spec (cmp k k0) 0) as [E|E]; [|auto].
+      apply (cmp_eq_sym cmp TO) in E. lia.
+  Qed.
+
+  Lemma s_equal_iff (eqv : V -> V -> bool) (l1 l2 : amap) :
+    (forall a b, eqv a b = true <-> a = b) -> (forall a b, cmp a b = 0 -> a = b) ->
+    sorted cmp l1 -> sorted cmp l2 ->
+    (s_equal cmp eqv l1 l2 = true <-> l1 = l2).
+  Proof.
+    intros He Ha S1 S2. split.
+    - unfold s_equal, s_sub. intros H. apply andb_true_iff in H. destruct H as [H1 H2].
+      rewrite forallb_forall in H1, H2.
+      assert (sub : forall la lb, (forall x, In x la ->
+                  match s_get cmp (fst x) lb with Some v2 => eqv (snd x) v2 | None => false end = true) ->
+                forall e, In e la -> In e lb).
+      { intros la lb H [k v] Hin. specialize (H _ Hin). cbn [fst snd] in H.
+        destruct (s_get cmp k lb) as [w|] eqn:E; [|discriminate]. apply He in H. subst w.
+        destruct (s_get_In _ _ _ E) as [k' [I1 I2]]. apply Ha in I2. now subst k'. }
+      apply (sorted_unique cmp TO); auto. intros e. split; [apply (sub l1 l2 H1)|apply (sub l2 l1 H2)].
+    - intros <-. unfold s_equal, s_sub.
+      assert (forallb (fun e => match s_get cmp (fst e) l1 with Some v2 => eqv (snd e) v2 | None => false end) l1 = true).
+      { apply forallb_forall. intros [k v] Hin. cbn [fst snd]. rewrite (s_get_self l1 k v S1 Hin). now apply He. }
+      now rewrite H.
+  Qed.
+
 End Q.
